@@ -88,6 +88,21 @@ def _root(c):
     m, n = c['tchans'], c['fchans']
     rng = np.random.default_rng([c['seed'], m, n])
     data = 10.0 + np.arange(m * n, dtype=float).reshape(m, n) + rng.uniform(0, 0.25, size=(m, n))
+    if c.get('root') in ('fil8', 'fil16'):
+        # (sub-box) the root is loaded from an 8- / 16-bit filterbank file written by the independent writer, and a fractional
+        # offset is then added to its (floating-point) data: what the frame holds is what a save must write
+        nb = 8 if c['root'] == 'fil8' else 16
+        fch1_mhz = g['fch1'] * 1e-6 if c['asc'] else (g['fch1']) * 1e-6
+        hdr = S.default_header(n, fch1_mhz, (g['df'] if c['asc'] else -g['df']) * 1e-6, g['dt'], tstart=59105.5, source_name=ROOT_SRC, nbits=nb)
+        p = _tmp('.fil')
+        ints = np.floor(data).astype(np.int64) % 100
+        S.write_fil(p, hdr, ints if c['asc'] else ints[:, ::-1])
+        try:
+            fr = stg.Frame(waterfall=p)
+            fr.data = np.array(fr.data, dtype=float) + 0.25
+        finally:
+            _rm(p)
+        return fr
     return stg.Frame(fchans=n, tchans=m, df=g['df'], dt=g['dt'], fch1=g['fch1'], ascending=c['asc'],
                      data=data, t_start=T0, source_name=ROOT_SRC)
 
@@ -726,6 +741,13 @@ def run(ctx):
                 cases.append(dict(base, prefix=[], depth=0))
                 for op in OPS:
                     cases.append(dict(base, prefix=[op], depth=depth))
+    # (sub-box) roots loaded from 8- and 16-bit files
+    for rt in ('fil8', 'fil16'):
+        for asc in (False, True):
+            base = dict(geom=sorted(GEOMS)[0], asc=asc, tchans=SIZES[0][0], fchans=SIZES[0][1], seed=ctx.seed, tier=ctx.tier, root=rt)
+            cases.append(dict(base, prefix=[], depth=0))
+            for op in ('get_waterfall', 'copy', 'slice_mid'):
+                cases.append(dict(base, prefix=[op], depth=1))
     cases.sort(key=lambda c: (len(c['prefix']), c['tchans'] * c['fchans']))
     ctx.pmap(case_history, cases, chunk=1)
     box = []
